@@ -454,6 +454,95 @@ def v_buffered_shuffle(p):
   p.verify('buffered_shuffle', eng, body)
 
 
+# ---------------------------------------------------------------------------
+# the FederatedData-level wrappers: argument and seed plumbing
+
+def v_fd_wrappers(p):
+  ex = p.extract(FD, 'shuffle_repeat_batch_federated_data')
+  RsS = z3.DeclareSort('RandomState15')
+  RS = z3.Function('RandomState', I, RsS)
+  RS_NONE = z3.Const('RandomState_unseeded', RsS)
+  DRAW = z3.Function('first_randint', RsS, I, I)
+  seed = z3.Int('seed')
+  seed_none = z3.Bool('seed_is_None')
+  bs, cbs, ebs = z3.Ints('batch_size client_buffer_size example_buffer_size')
+  rec = {}
+
+  class RsV15(Val):
+    def __init__(self, term):
+      self.term, self.draws = term, 0
+
+    def method(self, ctx, name, args, kwargs):
+      if name == 'randint':
+        self.draws += 1
+        if self.draws != 1:
+          raise Unsupported('second draw')
+        return DRAW(self.term, to_z3(args[0]))
+      raise Unsupported(f'rng.{name}')
+
+  class FdV15(Val):
+    def method(self, ctx, name, args, kwargs):
+      if name == 'shuffled_clients':
+        rec['shuffled'] = (args, kwargs)
+        return ShufV()
+      raise Unsupported(f'fd.{name}')
+
+  class ShufV(Val):
+    def comprehend(self, ctx, engine, e, g, kind):
+      ok = kind == 'gen' and not g.ifs and isinstance(g.target, ast.Tuple) and len(g.target.elts) == 2 and \
+          ast.unparse(e.elt) == ast.unparse(g.target.elts[1])
+      rec['datasets_of_shuffled'] = ok
+      return DatasetsV()
+
+  class DatasetsV(Val):
+    pass
+
+  def rs(ctx, s_=None):
+    if isinstance(s_, OptV):
+      return RsV15(z3.If(s_.is_none, RS_NONE, RS(to_z3(s_.val))))
+    return RsV15(RS(to_z3(s_)) if s_ is not None else RS_NONE)
+
+  def bsb(ctx, datasets, **kw):
+    rec['bsb'] = (datasets, kw)
+    return ()
+  import ast
+  eng = Engine({'np': Module('np', {'random': Module('np.random', {'RandomState': Handler(rs, 'np.random.RandomState')})}),
+                'client_datasets': Module('client_datasets', {'buffered_shuffle_batch_client_datasets': Handler(bsb, 'bsbcd')})})
+  eng.sources = [FD]
+
+  def body(ctx):
+    rec.clear()
+    ctx.model_vars.update(seed=seed, seed_is_None=seed_none)
+    ctx.on_yield = lambda c, v: None
+    sv = OptV(seed_none, seed)
+    kind, r = eng.run_function(ctx, ex.funcv(), [FdV15(), bs, cbs, ebs, sv])
+    ctx.oblige('srbfd.noraise', kind == 'return')
+    ok = 'shuffled' in rec and 'bsb' in rec and rec.get('datasets_of_shuffled') is True
+    ctx.oblige('srbfd.shape', ok, detail='client level: fd.shuffled_clients(...); example level: buffered_shuffle_batch_client_datasets '
+                                         'over the datasets of that stream')
+    if not ok:
+      return
+    args, kw = rec['shuffled']
+    a = list(args) + [kw[k] for k in ('buffer_size', 'seed') if k in kw]
+    okc = len(a) == 2
+    ctx.oblige('srbfd.clients.args', okc)
+    if okc:
+      want = DRAW(z3.If(seed_none, RS_NONE, RS(seed)), z3.IntVal(1 << 32))
+      got = a[1]
+      gt = (z3.IntVal(-1) if got is None else (to_z3(got.val) if isinstance(got, OptV) else to_z3(got)))
+      isnone = z3.BoolVal(got is None) if not isinstance(got, OptV) else got.is_none
+      ctx.oblige('srbfd.seed', z3.And(to_z3(a[0]) == cbs, z3.Implies(z3.Not(seed_none), z3.And(z3.Not(isnone), gt == want))),
+                 detail='for EVERY integer seed (0 included) the client-level shuffle is seeded by the first draw of '
+                        'RandomState(seed): the stream is reproducible for a fixed seed')
+    ds, kw2 = rec['bsb']
+    r2 = kw2.get('rng')
+    ctx.oblige('srbfd.examples.args', z3.And(isinstance(ds, DatasetsV), isinstance(r2, RsV15),
+                                             to_z3(kw2.get('batch_size', -1)) == bs, to_z3(kw2.get('buffer_size', -1)) == ebs,
+                                             (r2.term if isinstance(r2, RsV15) else RS_NONE) == z3.If(seed_none, RS_NONE, RS(seed))),
+               detail='example level: the same RandomState(seed), the requested batch and buffer sizes')
+  p.verify('shuffle_repeat_batch_federated_data', eng, body)
+
+
 def build(p):
   D = 'native/C15.py'
   p.native('RepeatableIterator', D, 'rep')
@@ -462,6 +551,8 @@ def build(p):
   v_padded_batch_client_datasets(p)
   p.native('buffered_shuffle', D, 'bshuf')
   v_buffered_shuffle(p)
+  p.native('shuffle_repeat_batch_federated_data', D, 'srbfd')
+  v_fd_wrappers(p)
   p.native_checks = [
       dict(name='buffered_shuffle', driver=D, payload={'mode': 'sweep', 'fn': 'bshuf'},
            bound='stream lengths 0..11, buffer sizes 1..14, 3 seeds: output is a permutation of the '
